@@ -22,7 +22,9 @@ import mido.backends._parser_queue as pqmod  # noqa: E402
 TRACED = ('mido/ports.py', 'mido/parser.py', 'mido/tokenizer.py', 'mido/sockets.py',
           'mido/backends/_parser_queue.py')
 KINDS = ('locked_old', 'locked_new', 'echo', 'ioport', 'multi', 'multi_yield', 'pq')
-MSG_SHAPES = ('note_on', 'control_change', 'program_change', 'pitchwheel', 'sysex', 'sysex', 'songpos', 'note_off')
+MSG_SHAPES = ('note_on', 'control_change', 'program_change', 'pitchwheel', 'sysex', 'sysex', 'songpos', 'note_off',
+              'rt')
+RT_NAMES = ('clock', 'start', 'continue', 'stop', 'active_sensing', 'reset')
 _CUR = {'sched': None}
 
 
@@ -48,6 +50,10 @@ def make_msg(shape, sender, seq, pad):
         return mido.Message('pitchwheel', channel=sender, pitch=seq - 64)
     if shape == 'songpos':
         return mido.Message('songpos', pos=sender * 128 + seq)
+    if shape == 'rt':
+        # a real-time message has no data field: the identity travels in `time` (kept by in-process ports,
+        # dropped by byte-wise device ports, where such messages are counted per type instead)
+        return mido.Message(RT_NAMES[pad % 6], time=sender * 1000 + seq + 1)
     return mido.Message('sysex', data=[sender, seq] + [(pad + i) % 128 for i in range(pad % 13)])
 
 
@@ -65,6 +71,8 @@ def ident(m):
         return (m.pos // 128, m.pos % 128)
     if t == 'sysex' and len(m.data) >= 2:
         return (m.data[0], m.data[1])
+    if t in RT_NAMES and isinstance(m.time, int) and m.time > 0:
+        return (m.time // 1000, m.time % 1000 - 1)
     return None
 
 
@@ -83,6 +91,8 @@ def mutate(m):
         m.channel = (m.channel + 1) % 16
     elif t == 'songpos':
         m.pos = (m.pos + 1) % 16384
+    elif t in RT_NAMES:
+        m.time = m.time + 500
     else:
         m.data = [127, 127] + list(m.data)
 
@@ -750,10 +760,14 @@ class PortsConc(BaseEngine):
         by_id = {}
         for si, seq, orig, inv, obj in sent:
             by_id[(si, seq)] = (orig, inv, obj)
+        anon_wire = collections.Counter()
+        sent_rt = collections.Counter(orig.type for _, _, orig, _, _ in sent if orig.type in RT_NAMES)
+        anon_rx = collections.Counter()
         # wire image: concatenation of complete encodings of sent messages
         for w in wires:
             pos = 0
             log = w.log
+            anon_wire = collections.Counter()
             while pos < len(log):
                 # a complete encoding starts with a status byte and runs to the next status byte / F7
                 if log[pos] < 0x80:
@@ -772,13 +786,20 @@ class PortsConc(BaseEngine):
                         end += 1
                 try:
                     m = mido.Message.from_bytes(log[pos:end])
-                    ok = ident(m) in by_id and m == by_id[ident(m)][0]
+                    if m.type in RT_NAMES:
+                        anon_wire[m.type] += 1
+                        ok = True
+                    else:
+                        ok = ident(m) in by_id and m == by_id[ident(m)][0]
                 except Exception:
                     ok = False
                 if not ok:
                     raise Violation(f'wire-mixed@{kind}', f'wire image is not a concatenation of the sent encodings: '
                                                           f'{bytes(log).hex(" ")}')
                 pos = end
+            if log and not incomplete and anon_wire != sent_rt and kind != 'pq':
+                raise Violation(f'wire-mixed@{kind}', f'real-time bytes on a device wire {dict(anon_wire)} differ from '
+                                                      f'the real-time messages sent {dict(sent_rt)}')
         # exactly once, intact, copy
         counts = collections.Counter()
         allrec = [(th, op, inv, ret, m, tgt) for th, op, inv, ret, m, tgt in received] + \
@@ -793,6 +814,9 @@ class PortsConc(BaseEngine):
             if not isinstance(m, mido.Message):
                 raise Violation(f'not-a-message@{kind}', f'{op} returned {res!r}')
             key = ident(m)
+            if key is None and m.type in RT_NAMES and not vars(m).get('time'):
+                anon_rx[m.type] += 1      # came through a byte-wise device: identity (time) not transmitted
+                continue
             if key not in by_id:
                 raise Violation(f'corrupt-or-invented@{kind}', f'{th}.{op} returned {m!r}, which no sender sent '
                                                                f'(mixed, mutated or invented)')
@@ -804,8 +828,23 @@ class PortsConc(BaseEngine):
             if ret < sinv:
                 raise Violation(f'received-before-sent@{kind}', f'{m!r} received at {ret} but send invoked at {sinv}')
             counts[key] += 1
+        # real-time messages: counted per type (those that crossed a byte-wise device carry no identity)
+        anon_ids = set()
+        if anon_rx:
+            rx_rt = collections.Counter(anon_rx)
+            for key, n in counts.items():
+                if by_id[key][0].type in RT_NAMES:
+                    rx_rt[by_id[key][0].type] += n
+            for t in set(rx_rt) | set(sent_rt):
+                n = rx_rt[t]
+                if n > sent_rt[t] * n_sub or (n < sent_rt[t] * n_sub and not incomplete):
+                    raise Violation(f'{"lost" if n < sent_rt[t] * n_sub else "duplicated"}@{kind}',
+                                    f'{n} {t} message(s) received, {sent_rt[t]} sent (x{n_sub})')
+            anon_ids = {k for k, v in by_id.items() if v[0].type in RT_NAMES}
         for key in by_id:
             exp = n_sub
+            if key in anon_ids:
+                continue
             if incomplete and counts[key] <= exp:
                 continue
             if counts[key] != exp:
@@ -824,7 +863,10 @@ class PortsConc(BaseEngine):
                     m = res[1]
                 elif n_sub > 1 and tgt < 0:
                     continue    # fan-in without yield_ports: origin unknown
-                si, seq = ident(m)
+                key = ident(m)
+                if key is None:
+                    continue        # anonymous real-time message (identity not transmitted by a byte device)
+                si, seq = key
                 k = (si, th, subid)
                 if k in last and seq <= last[k]:
                     raise Violation(f'reordered@{kind}', f'{th} received seq {seq} of sender {si} after seq {last[k]}')
